@@ -44,6 +44,10 @@ def cases(tier, seed, prep=None):
     for i in range(40 if tier == "quick" else 1200):
         out.append({"kind": "outage", "seed": seed * 1000003 + 580000 + i, "who": "AB"[i % 2], "at": 30 + (i * 11) % 200,
                     "seconds": [5, 30, 120, 200, 400, 900][i % 6], "min_msgs": 2})
+    # long sessions (70-100 messages each way) with late reconnects: everything the server replays has been seen before
+    for i in range(12 if tier == "quick" else 400):
+        out.append({"kind": "random", "seed": seed * 1000003 + 590000 + i, "ndrops": [2, 3, 5], "min_msgs": 70, "max_msgs": 100, "max_size": 20,
+                    "late_drops": True})
     n_random = 300 if tier == "quick" else 10000
     for i in range(n_random):
         out.append({"kind": "random", "seed": seed * 1000003 + 500000 + i, "ndrops": [1, 2, 3, 4, 5, 6],
@@ -55,7 +59,7 @@ def run_case(spec):
     sub = dict(spec)
     if spec["kind"] in ("pingtimeout", "outage"):
         sub["kind"] = "plain"
-    world, drv, sch, cfg = build_case(sub, max_msgs=8, max_size=300)
+    world, drv, sch, cfg = build_case(sub, max_msgs=spec.get("max_msgs", 8), max_size=spec.get("max_size", 300))
     window_sends = [0]
     if spec["kind"] == "pingtimeout":
         from ..env import client_link, rc_of
@@ -88,6 +92,9 @@ def run_case(spec):
         sch.hook = hook
         orig_all_sent = drv.all_sent
         drv.all_sent = lambda: orig_all_sent() and held["payload"] is None
+    if spec.get("late_drops"):
+        # move the connection losses behind the bulk of the messages
+        sch.faults = [(k + 400 + 150 * i, fn, lab) for i, (k, fn, lab) in enumerate(sch.faults)]
     outage = {"over": spec["kind"] != "outage", "attempts_before": 0}
     if spec["kind"] == "outage":
         from ..env import MAILBOX_PORT
@@ -108,7 +115,7 @@ def run_case(spec):
                 outage["over"] = True
             world.reactor.callLater(spec["seconds"], end_outage)
         sch.faults.append((spec["at"], begin_outage, "outage of %d s for %s" % (spec["seconds"], spec["who"])))
-    sch.run(1200, until=drv.all_delivered)
+    sch.run(1200 if not spec.get("late_drops") else 6000, until=(drv.all_delivered if not spec.get("late_drops") else (lambda: drv.all_delivered() and not sch.faults)))
     if spec["kind"] == "outage":
         sch.drain(spec["seconds"] + 5.0, 40000, until=lambda: outage["over"])
     if spec["kind"] == "pingtimeout":
